@@ -35,6 +35,14 @@ CLAIMED = {
          "Structural necessary conditions: nothing reachable from the ClientHello arm writes server state; handshake state is stored only after the cookie opened and the ack MAC verified, with exact length; the cookie's AEAD authenticates a hash of the whole client key, the unmodified (or injectively transformed) IP and both port bytes, taken from this datagram, under the current cookie key; in hidden mode every reaction is under !IsHidden or after a verified hidden request with both timestamp tests.",
          "Trusts go/ssa, VTA restricted to package transport for the arm reachability, the injective-transformation allow-list (To16, String, MarshalText). Replays inside the timestamp window and timing are not decided.",
          "DESIGN.md §3 C19"),
+ "C10": ("linear-offset cursor analysis over go/ssa (symbolic slice lengths, branch facts, pre-conditions propagated to call sites, post-conditions of successful returns, interval fixpoint for loop counters, phi case split), abort reachability over the VTA call graph against a reasoned assertion table, loop-exit analysis of the receive loops",
+         "Structural necessary conditions: every index / slice / make / fixed-width accessor in the transport and glob functions reachable from the datagram handlers is provably within len for every datagram length and content; no panic, Fatal, unchecked assertion or non-constant division is reachable from the handlers except tabled assertions whose reason excludes peer input; the Serve and listen loops can only be left through their state test.",
+         "Bounds are proven against len (stricter than Go's cap rule). Trusted contracts: io.Reader-shaped Read* return 0<=n<=len(buf); fixed-width binary accessors need their width. Out of scope: cyclist/kravatte/snp numeric kernels (they take lengths from callers), nil-ness, liveness ('still completes a subsequent handshake'). One exempted site (sealPacketLocked AD slice: bytes.Buffer contents not modelled; send path).",
+         "DESIGN.md §3 C10"),
+ "C11": ("the same cursor analysis over the tubes receive path (with field-length invariants, reaching field values and field-path pre-conditions), abort reachability from Muxer.receiver and the application decoders, loop-exit analysis of Muxer.receiver, range analysis of peer-sized allocations",
+         "Structural necessary conditions: frame decoding and acknowledgement processing are in bounds for every frame; no reachable abort from the receive path and the decoders except tabled assertions; the muxer's receive loop is left only on the stopped state or a transport read error (decode errors filtered); no allocation sized by a peer-supplied length field above one datagram.",
+         "As C10. Exempted with checked side conditions: fromInitiateBytes (every call site passes frame.toBytes() of a decoded frame), Reliable.send retransmission loops (bounded by framesToSend / len under r.l). 'Can still be stopped cleanly' is C16; unbounded queues over histories are not decided.",
+         "DESIGN.md §3 C11"),
 }
 
 NOT_APPLICABLE = {
